@@ -21,7 +21,7 @@ EXPLANATION = (
     "blank lines, padded names, relative and absolute paths, with and without a base directory.")
 NOT_DECIDED = ("the predecessor arithmetic on line numbers (bisect(...) - 1, clamping): any rule strong enough to catch an "
                "off-by-one would also reject equivalent rewrites; wildcard expansion in list files (file system); grouping of locations in parse_features beyond L8")
-TECHNIQUE = "static analysis: abstract evaluation of the selection code on model tokens (identity vs equality semantics of sets/lists, truth tables), ladder-order rule over the resolved class hierarchy, field-reset rule"
+TECHNIQUE = "static analysis: abstract evaluation of the selection code on model tokens (identity vs equality semantics of sets/lists, truth tables), ladder-order rule over the resolved class hierarchy, field-reset rule; static constant propagation of the string-level glue (the source interpreted on enumerated literal inputs, stdlib calls folded) against oracles written in the rule"
 
 
 def t_loc(chk, ix):
